@@ -4,6 +4,9 @@ OWNED: (regex on the clause key, [properties]) -- first match wins; obligations 
 property listed in their contract's `props`.
 """
 OWNED = [
+    # the drift-corrected phase is evaluated at the slot's own start (after rounding): a C15 clause carried by the two schedule writers
+    (r"^_Schedule\.make_next_pulse_slot/ensures\.(drift-corrected-phase|keeps-amplitude-and-detuning)", ["C03", "C10", "C07", "C01", "C15"]),
+    (r"^_Schedule\.add_pulse/ensures\.(drift-corrected-phase|keeps-amplitude-and-detuning)", ["C01", "C02", "C03", "C07", "C09", "C10", "C15"]),
     (r"Sequence\.(enable_eom_mode|disable_eom_mode|add_eom_pulse)/ensures\.(was-|in-eom-mode-afterwards|still-in-eom-mode)", ["C13", "C15"]),
     (r"Sequence\.(enable_eom_mode|disable_eom_mode|modify_eom_setpoint|add_eom_pulse)/", ["C15"]),
     (r"Sequence\._add/ensures\.(assert:targets-share-one-reference|assert:phase-uses-some-target's-reference|phase-is-programmed-plus-reference|starts-after-latest-phase-shift-of-targets|targets-marked-used|post-phase-shift-applied|BRINV)", ["C07"]),
@@ -26,6 +29,9 @@ OWNED = [
     (r"_check_duration/", ["C01"]),
     (r"ensures\.INV\.(len>=0|first-is-initial-target|kinds|contiguous|monotone|boundaries-nonneg|clock-aligned|pulse-occupies-its-duration|pulses-are-valid|min-duration|targets-change-only-at-target-slots)", ["C02"]),
     (r"ensures\.(append-only|assert:bridge)", ["C02"]),
+    # everything else of the two writers stays with the scheduling properties (C15 takes only the rows at the top)
+    (r"^_Schedule\.make_next_pulse_slot/", ["C03", "C10", "C07", "C01"]),
+    (r"^_Schedule\.add_pulse/", ["C01", "C02", "C03", "C07", "C09", "C10"]),
 ]
 
 PROPS = {
